@@ -500,7 +500,7 @@ func parseExpr(src string) (e Expr, err error) {
 var itemKw = map[string]bool{"func": true, "extern": true, "spec": true, "axiom": true, "lemma": true,
 	"property": true, "opaque": true, "ghost": true, "theory": true, "import": true, "bind": true, "global": true}
 var clauseKw = map[string]bool{"requires": true, "ensures": true, "modifies": true, "loop": true, "call": true,
-	"nopanic": true, "trusted": true, "pure": true, "cut": true, "induction": true, "fresh": true, "trigger": true, "uses": true, "auto": true, "select": true, "oncall": true, "onrecv": true, "iterates": true, "untyped": true}
+	"nopanic": true, "trusted": true, "pure": true, "cut": true, "induction": true, "fresh": true, "trigger": true, "uses": true, "auto": true, "select": true, "oncall": true, "onrecv": true, "onsend": true, "iterates": true, "untyped": true}
 
 type rawLine struct {
 	kw    string
@@ -877,6 +877,12 @@ func parseSpecFile(path string) (*SpecFile, error) {
 		case "select":
 			// select <k> case <i> ghost <G> := <expr>
 			m := regexp.MustCompile(`^(\d+)\s+case\s+(\d+)\s+ghost\s+([A-Za-z_][A-Za-z0-9_]*)\s*:=\s*(.*)$`).FindStringSubmatch(l.text)
+			if m == nil {
+				// select <k> case <i> assume <expr>: an assumption about the value received in that case (listed)
+				if ma := regexp.MustCompile(`^(\d+)\s+case\s+(\d+)\s+assume\s+(.*)$`).FindStringSubmatch(l.text); ma != nil {
+					m = []string{ma[0], ma[1], ma[2], "", ma[3]}
+				}
+			}
 			if cur == nil || m == nil {
 				return nil, fmt.Errorf("%s: bad select clause", l.where)
 			}
@@ -917,10 +923,17 @@ func parseSpecFile(path string) (*SpecFile, error) {
 				cur.IterEnsures = append(cur.IterEnsures, c)
 			}
 			sf.Ghosts = append(sf.Ghosts, GhostDecl{Name: lg, Sort: "map[int]" + m[4], File: sf})
-		case "oncall", "onrecv":
+		case "oncall", "onrecv", "onsend":
 			// oncall <callee> <k> ghost G := e | oncall <callee> <k> assert e | onrecv <k> ghost G := e
 			txt := l.text
 			callee := "<-"
+			if l.kw == "onsend" {
+				// onsend <k|*> ghost G := e | onsend <k|*> assert e   (sendch, sendval are bound; * = every send)
+				callee = "->"
+				if strings.HasPrefix(strings.TrimSpace(txt), "*") {
+					txt = "0" + strings.TrimSpace(txt)[1:]
+				}
+			}
 			if l.kw == "oncall" {
 				f := strings.Fields(txt)
 				if len(f) < 3 {
